@@ -1,7 +1,7 @@
 SPECIFICATION Spec
 CONSTANTS
   MaxLen = 4
-  Formats = {"tsv", "csv.gz", "json"}
+  Formats = {"tsv", "csv.gz"}
 INVARIANT WellFormed
 PROPERTY ObservationsArePure
 PROPERTY ReorderKeepsColumns
